@@ -204,3 +204,93 @@ def check_c15(c):
         nontrivial=lambda cmd, args, impl: impl.count("#ok#") == 1 and len(impl) > 600,
         assumptions=["the C code is not modelled: its behaviour is compared, file by file and query by query, with the records written (differential / translation validation); the Coq side contributes the spec decoder (judge of the C-written files) and the model reader (what the Go reader must return on them)",
                      "stack directories written by one implementation and read by the other are not exercised (table files only)"])
+
+
+def check_c19(c):
+    """C19: regenerate the effect summary from the working tree, re-check the reflection theorem, validate with the race detector."""
+    import re, shutil, subprocess
+    from verifylib import sh, GOENV, COQ, REPO
+    notes = []
+    ok_build = c.build_impl()
+    gen = os.path.join(COQ, "gen", "EffectsData.v")
+    shared_writes = []
+    if ok_build:
+        # the translator
+        ssadir = os.path.join(c.scratch, "ssa")
+        shutil.copytree(os.path.join(ROOT, "harness", "ssa"), ssadir)
+        rc, out = sh("go build -o ssax .", cwd=ssadir, env=GOENV, timeout=900)
+        if rc != 0:
+            c.notes.append("translator build failed: " + out[-2000:])
+            ok_build = False
+        else:
+            # run it on the plain working tree (no rewriting): copy again without the shim
+            plain = os.path.join(c.scratch, "plain")
+            os.makedirs(plain)
+            for f in os.listdir(REPO):
+                if (f.endswith(".go") and not f.endswith("_test.go")) or f in ("go.mod", "go.sum"):
+                    shutil.copy(os.path.join(REPO, f), os.path.join(plain, f))
+            rc, out = sh([os.path.join(ssadir, "ssax"), "-dir", plain, "-out", gen], cwd=plain, env=GOENV, timeout=900)
+            c.coverage["translator_output"] = out[-1500:]
+            if rc != 0:
+                c.notes.append("translator failed: " + out[-2000:])
+                ok_build = False
+            shared_writes = [l for l in out.split("\n") if l.startswith("SHARED-WRITE")]
+    # the generated data and the reflection theorem are compiled here only (they are not part of
+    # the shared build, so a tree that breaks C19 cannot break the other properties' builds)
+    sh("coq_makefile -f _CoqProject -o Makefile && timeout 3000 make -j16", cwd=COQ, timeout=3100)
+    rc, out = sh("timeout 600 coqc -R . RT gen/EffectsData.v", cwd=COQ, timeout=700)
+    if rc != 0:
+        c.notes.append("gen/EffectsData.v does not compile: " + out[-1500:])
+    coq_ok = c.coq_stage(["Properties/C19.v"], ["Proofs/EffectsProofs.v"]) and rc == 0
+    # validation: mixed concurrent reads under the race detector
+    races = ""
+    res = {"evaluations": 0, "tie_mismatch": [], "oracle_bad": [], "distinct_nontrivial": 0, "by_cmd": {}}
+    stats = {}
+    if ok_build:
+        rc, out = sh("go build -race -tags verif -o hrace .", cwd=os.path.join(c.scratch, "harness"), env=GOENV, timeout=1200)
+        if rc != 0:
+            c.notes.append("race build failed: " + out[-2000:])
+        else:
+            outd = os.path.join(c.scratch, "out")
+            os.makedirs(outd, exist_ok=True)
+            env = dict(GOENV, GORACE="halt_on_error=0 exitcode=0")
+            rc, txt = sh("./hrace -prop c19 -seed %d -tier %s -out %s" % (c.seed, c.tier, outd),
+                         cwd=os.path.join(c.scratch, "harness"), env=env, timeout=3000)
+            if "DATA RACE" in txt:
+                races = txt[txt.index("WARNING: DATA RACE"):][:6000]
+            cases = os.path.join(outd, "c19.cases")
+            try:
+                stats = json.load(open(os.path.join(outd, "c19.stats.json")))
+            except (OSError, ValueError):
+                pass
+            if rc != 0 or not os.path.exists(cases):
+                c.notes.append("race harness failed: " + txt[-2000:])
+            else:
+                model = c.run_driver(cases)
+                if model is not None:
+                    res = c.compare(cases, model, lambda cmd, a, i: True)
+    if races:
+        path = c.write_replay("race", {"kind": "data-race", "report": races, "shared_writes": shared_writes})
+        c.violations.append((path, ""))
+    elif res["oracle_bad"]:
+        path = c.write_replay("oracle", {"kind": "concurrent-results-differ", "case": res["oracle_bad"][0]})
+        c.violations.append((path, ""))
+    elif not coq_ok or shared_writes:
+        path = c.write_replay("proof", {"kind": "proof-obligation-broken", "theorem": "C19_shared_safe (reflection over gen/EffectsData.v)",
+                                        "shared_writes": shared_writes, "notes": c.notes,
+                                        "note": "the effect summary of the working tree contains a write to shared state (or the theorem no longer checks); the race detector found no race on the explored workloads"})
+        c.violations.append((path, " no-failing-input-found"))
+    elif not ok_build:
+        path = c.write_replay("build", {"kind": "correspondence-broken", "notes": c.notes})
+        c.violations.append((path, " no-failing-input-found"))
+    extra = {"evaluations": res["evaluations"], "distinct_nontrivial": res["distinct_nontrivial"],
+             "traces_validated_against_impl": res["evaluations"], "race_reports": 1 if races else 0,
+             "shared_writes_in_summary": shared_writes, "input_distribution": {k: v for k, v in stats.items() if k != "samples"}}
+    c.finish(level="proof",
+             rule=("effect summary: every store / map update / copy destination in the functions reachable (class-hierarchy call graph) from the read API of the current working tree, "
+                   "with the owner of the written location; validation: rounds of 8 goroutines x 120 (thorough 400) mixed queries on one shared memory-backed Reader, file-backed Reader and Merged, built with -race, "
+                   "results compared with the sequential results. non-trivial = every concurrent round"),
+             samples=stats.get("samples") or ["(no cases)"],
+             assumptions=["the ownership classification of written locations (type-based; no sound alias analysis is proved) and the call graph (CHA) are trusted: claimed as partial",
+                          "the Go memory model, os.File.ReadAt (positional read) and the race detector's coverage of the explored interleavings"],
+             extra=extra)
